@@ -68,10 +68,12 @@ structure PollEntry where
 inductive Ev
   | op (o : Op) (r : Res)
   | runBegin
+  | spinBegin               -- `events_spin(&done)` is entered
   | cb (id : Nat)
   | cbEnd (rc : Int)
   | poll (timeout : Int) (adv : Nat) (fds : List PollEntry) (out : PollOutcome)
   | ret (rc : Int)
+  | spinRet (rc : Int)      -- `events_spin` returns `rc`; the caller clears its `done` variable afterwards
   | fault                   -- the model made an out-of-bounds access / ran out of fuel (never printed by the C)
   deriving DecidableEq, Repr, Inhabited
 
@@ -182,6 +184,8 @@ structure M where
   startIntr : Bool := false        -- the call started with an interrupt request already pending
   mustFire : Bool := false         -- a blocking poll woke for a registered descriptor / expired timer
   stop : Option Int := none        -- dispatching has to stop; the call must return this value
+  spin : Bool := false             -- the call in progress is `events_spin`
+  done : Bool := false             -- the caller's `done` variable is non-zero
   deriving Repr
 
 /-- the property's "rounded up to a millisecond": the least whole number of milliseconds that is not
@@ -248,6 +252,15 @@ interrupt: for a waiting poll that stops dispatching anyway, for the non-blockin
 at.  A loop that remembers "the last poll found nothing and nothing was registered since" and goes from one expired timer
 straight to the next is rejected: `timer N run without a look at the registered descriptors since the previous callback`. -/
 
+/-! `events_spin(&done)` (`spinBegin … spinRet rc`) calls `events_run`'s body until `done` is non-zero, a callback returns a
+non-zero status or an interrupt is requested.  The monitor judges the call as a whole (an observer cannot tell where one
+turn of that loop ends): every order clause and the poll-timeout clauses apply unchanged; after a non-zero status nothing
+else runs and the call returns it; after an interrupt request nothing else runs and the call returns 0; 0 is returned
+otherwise only if `done` is set; if `done` was set before the call nothing at all runs (no callback, no poll); once `done`
+is set the turn in progress may finish, but no poll that may block (timeout ≠ 0) is issued any more; the interrupt request
+is consumed (a following `events_run` is a fresh call).  The per-call progress clauses of `ret` are not applied at
+`spinRet`. -/
+
 def step (m : M) : Ev → Except String M
   | .op (.regImm id p) .ok => pure { dropId m id with imms := (dropId m id).imms ++ [⟨id, p⟩] }
   | .op (.cancelImm id) .ok => pure (dropId m id)
@@ -271,12 +284,19 @@ def step (m : M) : Ev → Except String M
       pure { m with tms := m.tms.map (fun t => if t.id == id then { t with deadline := m.clock + t.usec } else t) }
   | .op .interrupt _ => pure { m with intr := true }
   | .op (.clock us) _ => pure { m with clock := m.clock + us }
+  | .op .done _ => pure { m with done := true }
   | .op _ _ => pure m
   | .runBegin =>
       pure { m with inRun := true, fired := 0, polled := false, looked := false, startRunnable := runnable m,
-                    startIntr := m.intr, mustFire := false, stop := none }
+                    startIntr := m.intr, mustFire := false, stop := none, spin := false }
+  | .spinBegin =>
+      -- `done` already set: nothing at all may run (no callback, no poll), and the call returns 0
+      pure { m with inRun := true, fired := 0, polled := false, looked := false, startRunnable := runnable m,
+                    startIntr := m.intr, mustFire := false, stop := if m.done then some 0 else none, spin := true }
   | .poll timeout adv fds out => do
       if m.stop.isSome then throw "poll issued after dispatching had to stop"
+      if m.spin && m.done && timeout ≠ 0 then
+        throw s!"events_spin: poll may block (timeout {timeout}) although done is set"
       checkPoll m timeout
       match out with
       | .ok =>
@@ -323,6 +343,14 @@ def step (m : M) : Ev → Except String M
             if m.polled && m.nets.any (·.ready) then throw "returned although the latest poll reported a registered descriptor ready"
             if m.polled && expired m then throw "returned after polling although a timer has expired"
       pure { m with inRun := false, intr := false, stop := none, mustFire := false }
+  | .spinRet rc => do
+      match m.stop with
+      | some c => if rc ≠ c then throw s!"events_spin returned {rc}; the callback status / interrupt / done demands {c}"
+      | none =>
+          if rc ≠ 0 then throw s!"events_spin returned {rc} although no callback returned a non-zero status"
+          if !m.done && !m.intr then throw "events_spin returned 0 although done is not set and no interrupt was requested"
+      -- the interrupt request is consumed; the caller resets its `done` variable
+      pure { m with inRun := false, intr := false, stop := none, mustFire := false, spin := false, done := false }
   | .fault => pure m
 
 def run (m : M) : Trace → Except String M
